@@ -87,13 +87,19 @@ impl ResponseOutputFormat {
                 };
 
                 if !errors.is_empty() {
-                    // never replace an error that is already in the response (e.g. a search error)
-                    let key = if response.get("error").is_some() {
-                        "csv_error"
-                    } else {
-                        "error"
-                    };
-                    response[key] = json![{"csv": json![errors]}];
+                    // never replace anything that is already in the response: a search error
+                    // under "error", the csv_error of another CSV file of a combined policy
+                    let mut key = String::from("error");
+                    let mut attempt = 1;
+                    while response.get(key.as_str()).is_some() {
+                        key = if attempt == 1 {
+                            String::from("csv_error")
+                        } else {
+                            format!("csv_error_{}", attempt)
+                        };
+                        attempt += 1;
+                    }
+                    response[key.as_str()] = json![{"csv": json![errors]}];
                 }
                 Ok(row)
             }
